@@ -61,14 +61,25 @@ class Impl:
         self._w = regex.compile(r"\w")
 
     def admissible(self, src):
-        """The model alphabet: ASCII below 0x7f and `…`; beyond it a character must be neither white
-        space (str.isspace, regex \\s) nor a word character (regex \\w)."""
-        for ch in set(src):
-            if ord(ch) < 0x7F or ch == "…":
-                continue
-            if ch.isspace() or self._s.match(ch) or self._w.match(ch):
-                return False
+        """Every text is admissible: beyond ASCII the character classes of the model are oracle parameters whose
+        values `OracleDriver` computes with the real engines (kept as a hook; always True)."""
         return True
+
+    def char_classes(self, chars):
+        """(word, space): the non-ASCII characters (other than `…`) that regex `\\w` / `\\s` match. `\\s` and
+        str.isspace agree on every non-ASCII character (checked on all of Unicode at design time; asserted here)."""
+        word, space = [], []
+        for ch in sorted(chars):
+            if ord(ch) < 128 or ch == "…":
+                continue
+            if self._w.match(ch):
+                word.append(ch)
+            sp = bool(self._s.match(ch))
+            if sp != ch.isspace():
+                raise core.MachineryError(f"regex \\s and str.isspace disagree on U+{ord(ch):04X}")
+            if sp:
+                space.append(ch)
+        return "".join(word), "".join(space)
 
     def get_program(self, src):
         try:
@@ -80,6 +91,42 @@ class Impl:
             "addition": {k: [[s.start, s.end] for s in v] for k, v in p.addition.items()},
             "deletion": {k: [[s.start, s.end] for s in v] for k, v in p.deletion.items()},
         }
+
+
+class OracleDriver:
+    """The Lean driver, each request completed with the oracle values (`word`, `space`) of the non-ASCII
+    characters that occur in it, computed with the real `regex` module."""
+
+    def __init__(self, impl):
+        self.impl = impl
+        self.drv = core.Driver()
+
+    @staticmethod
+    def _chars(obj, acc):
+        if isinstance(obj, str):
+            if not obj.isascii():
+                acc.update(ch for ch in obj if ord(ch) >= 128)
+        elif isinstance(obj, dict):
+            for k, v in obj.items():
+                OracleDriver._chars(k, acc)
+                OracleDriver._chars(v, acc)
+        elif isinstance(obj, (list, tuple)):
+            for v in obj:
+                OracleDriver._chars(v, acc)
+
+    def call(self, op, **kw):
+        acc = set()
+        self._chars(kw, acc)
+        if acc:
+            word, space = self.impl.char_classes(acc)
+            kw["word"], kw["space"] = word, space
+        return self.drv.call(op, **kw)
+
+    def close(self):
+        self.drv.close()
+
+    def __getattr__(self, name):  # the other users of the driver (pipe `p`, `batch`, `calls`) see the plain driver
+        return getattr(self.drv, name)
 
 
 def canon_model_program(m):
@@ -176,7 +223,7 @@ def stream_regexes(ctx, impl, drv):
     """R2: each fixed regex / string primitive against its structural transcription."""
     n = 4 if ctx.tier == "quick" else 5
     checks = []
-    toks = list(seqs(["-", "+", ".", "..", "...", "…", "a", "_", "1", ":", "/", "#", "\x1c"], n))
+    toks = list(seqs(["-", "+", ".", "..", "...", "…", "a", "_", "1", ":", "/", "#", "\x1c", "é", "\u00a0"], n))
     r = drv.call("c12.match_label", toks=toks)["r"]
 
     def ml(t):
@@ -187,7 +234,7 @@ def stream_regexes(ctx, impl, drv):
         return ["..." if b == "…" else b, m[2], bool(m[3])]
 
     checks.append(("regex:match_label", toks, r, ml))
-    lines = list(seqs([" ", "\t", "#", MARK, MARK + " ", "x", "...", "\x1c", "\r"], n + 1))
+    lines = list(seqs([" ", "\t", "#", MARK, MARK + " ", "x", "...", "\x1c", "\r", "\u00a0"], n + 1))
     r = drv.call("c12.isolated", lines=lines)["r"]
 
     def iso(l):
@@ -202,7 +249,7 @@ def stream_regexes(ctx, impl, drv):
         return [a, b.split()] if s else None
 
     checks.append(("str:partition+split", lines, r, ht))
-    texts = list(seqs([" ", "\n", "\t", MARK + " ", MARK, "x", "#", "\x1c"], n + 1))
+    texts = list(seqs([" ", "\n", "\t", MARK + " ", MARK, "x", "#", "\x1c", "\u00a0"], n + 1))
     r = drv.call("c12.remove_hints", srcs=texts)["r"]
     checks.append(("regex:sub_hints+strip", texts, r, lambda s: str(impl.ps.remove_hints(s))))
     norm_in = list(seqs(["#", " ", "\t", "paroxython", "PaRoxYthoN", "parox", ":", "x", "p", "\x1c", MARK + " "], n + 1 if ctx.tier == "quick" else n))
@@ -239,7 +286,8 @@ def stream_regexes(ctx, impl, drv):
                 "model": drv.call("c12.match_label", toks=["foo......"])["r"][0]})
 
 
-POOL = ["+L", "-L", "L", "L...", "...L", "…L", "L…", "-L...", "M...", "...M", "-M", "+-L", "...L...", "# x"]
+POOL = ["+L", "-L", "L", "L...", "...L", "…L", "L…", "-L...", "M...", "...M", "-M", "+-L", "...L...", "# x",
+        "été", "-λ", "a\u00a0b", "变\u2028量…", "́x"]
 
 
 def layouts(max_lines, max_toks, pool, codes=("x", "")):
@@ -289,9 +337,11 @@ def stream_layouts(ctx, impl, drv, judge):
         if len(srcs) > 60000:
             srcs = srcs[:20000] + ctx.rng.sample(srcs[20000:], 40000)
     else:
-        kinds = layouts(4, 1, POOL)
-        kinds += [k for k in layouts(4, 1, POOL[:8], codes=("s = 'a\x0cb'", "t\x1cu")) if k not in kinds]
+        kinds = layouts(4, 1, POOL[:14])  # 4 lines over the ASCII pool, 3 lines over the whole pool (10 min budget)
         srcs = ["\n".join(t) for k in (1, 2, 3, 4) for t in itertools.product(kinds, repeat=k)]
+        kinds3 = layouts(3, 1, POOL)
+        kinds3 += [k for k in layouts(3, 1, POOL[:8], codes=("s = 'a\x0cb'", "t\x1cu")) if k not in kinds3]
+        srcs += ["\n".join(t) for k in (1, 2, 3) for t in itertools.product(kinds3, repeat=k)]
         kinds2 = layouts(3, 2, POOL[:10])
         more = ["\n".join(t) for k in (1, 2, 3) for t in itertools.product(kinds2, repeat=k)]
         srcs += more if len(more) <= 400000 else ctx.rng.sample(more, 400000)
@@ -313,9 +363,11 @@ def stream_layouts(ctx, impl, drv, judge):
 
 
 LABELS = ["foo", "bar:baz", "a/b", "x.y", "l_1", "if", "loop:for", "meta/topic/fun", "A", "0",
-          "a...b", "x…y", "f(x)", "a+b", "a-b", "_", "paroxython:x"]
+          "a...b", "x…y", "f(x)", "a+b", "a-b", "_", "paroxython:x",
+          "été", "λ", "变量", "e\u0301t", "naïve/taxon", "a…b:c", "\u00b5s"]
+NON_ASCII_CODE = ["s = 'été\u00a0x'", "z = 'a\u2028b'  # é", "λ = 1", "变量 = λ + 1"]
 LINEBREAK_LIKE = ["s = 'a\x0cb'", "t = \"x\x0by\"", "u = 'p\x1cq'", "v = 'm\x1dn\x1eo'", "w = 'c\rd'", "k = '\x0c'  # ff"]
-CODE = LINEBREAK_LIKE[:5] + ["x = 1", "y = x + 1", "print(x)", "for i in range(3):", "    pass", "if x:", "    y = 2", "", "def f(a):",
+CODE = LINEBREAK_LIKE[:5] + NON_ASCII_CODE + ["x = 1", "y = x + 1", "print(x)", "for i in range(3):", "    pass", "if x:", "    y = 2", "", "def f(a):",
         "    return a", "z = [1, 2]", "while x: x -= 1", "s = '# not a hint'", "t = \"...\""]
 
 
@@ -589,7 +641,7 @@ def stream_unicode_linebreaks(ctx, impl, drv, judge):
     for _ in range(n):
         rng = ctx.rng
         ch = rng.choice(["\x85", "\u2028", "\u2029", "\x0c", "\x1c", "\x1e", "\x0b"])
-        base = [rng.choice(CODE[5:]) for _ in range(rng.randint(2, 5))]
+        base = [rng.choice(CODE[9:]) for _ in range(rng.randint(2, 5))]
         k = rng.randrange(len(base))
         base[k] = "q = 'a" + ch + "b'" if rng.random() < 0.7 else base[k] + "  # c" + ch + "d"
         layout = gen_decorated(rng, base, labels=LABELS[:8])
@@ -960,7 +1012,7 @@ def stream_corpus(ctx, impl, drv, judge):
 def run(ctx):
     core.prove(ctx)
     impl = Impl()
-    drv = core.Driver()
+    drv = OracleDriver(impl)
     try:
         judge = Judge(ctx, impl, drv)
         real = load_real_programs(impl)
@@ -995,8 +1047,9 @@ def run(ctx):
         "token-level bounded-exhaustive streams above (testing, not proof)",
         "R1: the answers of the `regex` engine on the 173 features and of SQLite on the derivation queries are parameters "
         "of the parser-glue model (recorded from the real run)",
-        "model alphabet: code points < 0x7f and U+2026; other characters only when they are neither white space nor word "
-        "characters for str.isspace / regex \\s / regex \\w (checked on every generated text)",
+        "character classes beyond ASCII (regex \\w, regex \\s = str.isspace) are ORACLE parameters of the model and of every "
+        "theorem; for each request the harness computes them with the real engines for the non-ASCII characters that occur "
+        "in it (no input is filtered out)",
     ]
     ctx.assumptions += [
         "C12_roundtrip: code lines are single lines without any look-alike of the marker and without trailing white space; "
@@ -1027,7 +1080,7 @@ def run(ctx):
 def replay(ctx, path):
     obj = json.loads(Path(path).read_text(encoding="utf-8"))
     impl = Impl()
-    drv = core.Driver()
+    drv = OracleDriver(impl)
     try:
         src = obj.get("src")
         if src is None:
